@@ -2,9 +2,12 @@
 package service
 
 import (
-	"github.com/jcmturner/gokrb5/v8/types"
+	"strconv"
+	"strings"
 	"sync"
 	"time"
+
+	"github.com/jcmturner/gokrb5/v8/types"
 )
 
 // Replay cache is required as specified in RFC 4120 section 3.2.3
@@ -17,9 +20,15 @@ type Cache struct {
 
 // clientEntries holds entries of client details sent to the service.
 type clientEntries struct {
-	replayMap map[time.Time]replayCacheEntry
+	replayMap map[replayKey]replayCacheEntry
 	seqNumber int64
 	subKey    types.EncryptionKey
+}
+
+// replayKey identifies an authenticator of one client: its timestamp and the service it was presented to.
+type replayKey struct {
+	cTime time.Time
+	sName string
 }
 
 // Cache entry tracking client time values of tickets sent to the service.
@@ -29,18 +38,30 @@ type replayCacheEntry struct {
 	cTime         time.Time // This combines the ticket's CTime and Cusec
 }
 
+// nameKey returns a map key that is different for different principal names.
+// (PrincipalNameString is not suitable: it joins the components with "/", which a component may contain.)
+func nameKey(pn types.PrincipalName) string {
+	var sb strings.Builder
+	for _, s := range pn.NameString {
+		sb.WriteString(strconv.Itoa(len(s)))
+		sb.WriteByte(':')
+		sb.WriteString(s)
+	}
+	return sb.String()
+}
+
 func (c *Cache) getClientEntries(cname types.PrincipalName) (clientEntries, bool) {
 	c.mux.RLock()
 	defer c.mux.RUnlock()
-	ce, ok := c.entries[cname.PrincipalNameString()]
+	ce, ok := c.entries[nameKey(cname)]
 	return ce, ok
 }
 
-func (c *Cache) getClientEntry(cname types.PrincipalName, t time.Time) (replayCacheEntry, bool) {
-	if ce, ok := c.getClientEntries(cname); ok {
-		c.mux.RLock()
-		defer c.mux.RUnlock()
-		if e, ok := ce.replayMap[t]; ok {
+func (c *Cache) getClientEntry(cname types.PrincipalName, sname types.PrincipalName, t time.Time) (replayCacheEntry, bool) {
+	c.mux.RLock()
+	defer c.mux.RUnlock()
+	if ce, ok := c.entries[nameKey(cname)]; ok {
+		if e, ok := ce.replayMap[replayKey{t, nameKey(sname)}]; ok {
 			return e, true
 		}
 	}
@@ -71,28 +92,28 @@ func GetReplayCache(d time.Duration) *Cache {
 
 // AddEntry adds an entry to the Cache.
 func (c *Cache) AddEntry(sname types.PrincipalName, a types.Authenticator) {
+	c.mux.Lock()
+	defer c.mux.Unlock()
+	c.addEntry(sname, a)
+}
+
+// addEntry adds an entry to the Cache. The caller must hold the write lock.
+func (c *Cache) addEntry(sname types.PrincipalName, a types.Authenticator) {
 	ct := a.CTime.Add(time.Duration(a.Cusec) * time.Microsecond)
-	if ce, ok := c.getClientEntries(a.CName); ok {
-		c.mux.Lock()
-		defer c.mux.Unlock()
-		ce.replayMap[ct] = replayCacheEntry{
-			presentedTime: time.Now().UTC(),
-			sName:         sname,
-			cTime:         ct,
-		}
+	k := replayKey{ct, nameKey(sname)}
+	e := replayCacheEntry{
+		presentedTime: time.Now().UTC(),
+		sName:         sname,
+		cTime:         ct,
+	}
+	if ce, ok := c.entries[nameKey(a.CName)]; ok {
+		ce.replayMap[k] = e
 		ce.seqNumber = a.SeqNumber
 		ce.subKey = a.SubKey
+		c.entries[nameKey(a.CName)] = ce
 	} else {
-		c.mux.Lock()
-		defer c.mux.Unlock()
-		c.entries[a.CName.PrincipalNameString()] = clientEntries{
-			replayMap: map[time.Time]replayCacheEntry{
-				ct: {
-					presentedTime: time.Now().UTC(),
-					sName:         sname,
-					cTime:         ct,
-				},
-			},
+		c.entries[nameKey(a.CName)] = clientEntries{
+			replayMap: map[replayKey]replayCacheEntry{k: e},
 			seqNumber: a.SeqNumber,
 			subKey:    a.SubKey,
 		}
@@ -100,12 +121,14 @@ func (c *Cache) AddEntry(sname types.PrincipalName, a types.Authenticator) {
 }
 
 // ClearOldEntries clears entries from the Cache that are older than the duration provided.
+// An entry is kept for as long as its authenticator could still pass the clock skew check.
 func (c *Cache) ClearOldEntries(d time.Duration) {
 	c.mux.Lock()
 	defer c.mux.Unlock()
+	now := time.Now().UTC()
 	for ke, ce := range c.entries {
 		for k, e := range ce.replayMap {
-			if time.Now().UTC().Sub(e.presentedTime) > d {
+			if now.Sub(e.presentedTime) > d && now.Sub(e.cTime) > d {
 				delete(ce.replayMap, k)
 			}
 		}
@@ -118,11 +141,13 @@ func (c *Cache) ClearOldEntries(d time.Duration) {
 // IsReplay tests if the Authenticator provided is a replay within the duration defined. If this is not a replay add the entry to the cache for tracking.
 func (c *Cache) IsReplay(sname types.PrincipalName, a types.Authenticator) bool {
 	ct := a.CTime.Add(time.Duration(a.Cusec) * time.Microsecond)
-	if e, ok := c.getClientEntry(a.CName, ct); ok {
-		if e.sName.Equal(sname) {
+	c.mux.Lock()
+	defer c.mux.Unlock()
+	if ce, ok := c.entries[nameKey(a.CName)]; ok {
+		if _, ok := ce.replayMap[replayKey{ct, nameKey(sname)}]; ok {
 			return true
 		}
 	}
-	c.AddEntry(sname, a)
+	c.addEntry(sname, a)
 	return false
 }
